@@ -671,6 +671,22 @@ func genCliGoAway(p *prng, thorough bool, w *bufio.Writer) {
 		if last > 0 && above {
 			s.note("class %s F37-above", s.id)
 		}
+		if last > 0 && q.chance(1, 3) {
+			// the graceful shutdown of RFC 7540 6.8: a first GOAWAY with last-stream-id 2^31-1 announces the end, the
+			// one that names the real last stream follows (a lower id: the only direction the RFC allows). In between
+			// the server may answer streams it is going to keep, and the client must not open a stream any more
+			s.note("goaway %s last=%d", s.id, uint32(1<<31-1))
+			s.frame(frGoAway(1<<31-1, 0, []byte("graceful")))
+			s.goAway = true
+			for _, sid := range s.openSids() {
+				if sid <= last && q.chance(1, 3) {
+					s.frames(s.render(sid, s.randResp(40))...)
+				}
+			}
+			if q.chance(1, 2) {
+				s.req(reqSpec{path: "/between"})
+			}
+		}
 		s.note("goaway %s last=%d", s.id, last)
 		s.frame(frGoAway(last, code, []byte(gaDebug[i%len(gaDebug)])))
 		s.goAway = true
